@@ -349,6 +349,39 @@ def run_kwident(case):
     return {'viol': viol, 'stats': st, 'shape': shapes, 'nontrivial': True, 'sample': {'source': kwident_program(case['lo'])[0][:300]}}
 
 
+def _ref_instr(start, s1, s2):
+    # QuickBASIC manual: 0 if string1 is empty, if start > LEN(string1), or if string2 is not found; start if string2 is empty
+    if s1 == '' or start > len(s1):
+        return 0
+    if s2 == '':
+        return start
+    return s1.find(s2, start - 1) + 1
+
+
+def _string_grid():
+    lines, exp = [], []
+    strs1 = ['', 'a', 'abc', 'abcabc']
+    strs2 = ['', 'a', 'c', 'bc', 'abcd']
+    for i, s1 in enumerate(strs1):
+        lines.append(f'zg{i}$ = "{s1}"')
+    for j, s2 in enumerate(strs2):
+        lines.append(f'zh{j}$ = "{s2}"')
+    for i, s1 in enumerate(strs1):
+        for j, s2 in enumerate(strs2):
+            lines.append(f'PRINT INSTR(zg{i}$, zh{j}$)')
+            exp.append(_ref_instr(1, s1, s2))
+            for st in (1, 2, 3, 4, 7):
+                lines.append(f'PRINT INSTR({st}, zg{i}$, zh{j}$)')
+                exp.append(_ref_instr(st, s1, s2))
+        for n in (0, 1, 2, 3, 4, 7):
+            lines.append(f'PRINT LEFT$(zg{i}$, {n}) + "|" + RIGHT$(zg{i}$, {n}) + "|" + MID$(zg{i}$, {n + 1}) + "|" + MID$(zg{i}$, {n + 1}, 2)')
+            exp.append(s1[:n] + '|' + (s1[-n:] if n else '') + '|' + s1[n:] + '|' + s1[n:n + 2])
+    return '\n'.join(lines) + '\n', exp
+
+
+DIRECTED.append(_string_grid())
+
+
 def run_directed(case):
     st = {'unit_programs': 0, 'programs': 0, 'runs_compared': 0, 'events_compared': 0, 'typed_print_items': 0,
           'error_outcomes_compared': 0, 'trap_lines_compared': 0, 'rejected': 0, 'ref_script_exhausted': 0, 'features': ['directed'],
